@@ -73,6 +73,28 @@ Theorem C10_encode_isolated : forall (g : nat -> nat) (f : hphy) (h h' : heap) (
 Proof. exact encode_isolated. Qed.
 Print Assumptions C10_encode_isolated.
 
+(* Every MarshalBinary of a PART of a frame - FOpts / FRMPayload element (DataPayload, MAC command), command payload
+   (incl. ProprietaryMACCommandPayload), FHDR, MACPayload, the MACPayload field (incl. a raw DataPayload: join-accept,
+   proprietary frames) - writes no existing buffer and returns memory that did not exist before the call (or has no
+   capacity): overwriting an encoder's output in any way cannot change the frame. *)
+Theorem C10_part_marshal_isolated : forall (g : nat -> nat) (h : heap),
+  (forall it, part_output_new h (h_item_marshal g it h)) /\
+  (forall p, part_output_new h (h_macpl_marshal p h)) /\
+  (forall c p, part_output_new h (h_cmd_marshal g c p h)) /\
+  (forall x, part_output_new h (h_fhdr_marshal g x h)) /\
+  (forall m, part_output_new h (h_mac_marshal g m h)) /\
+  (forall p, part_output_new h (h_payload_marshal g p h)).
+Proof. exact part_marshal_isolated. Qed.
+Print Assumptions C10_part_marshal_isolated.
+
+(* AES128Key / EUI64 / DevAddr / NetID.UnmarshalBinary: the receiver ends up holding the byte-reversed input for EVERY
+   placement of input and receiver in memory, including the input being the receiver itself. *)
+Theorem C10_ident_decode_overlap : forall (h : heap) (recv data : slice),
+  wf_slice h recv -> wf_slice h data -> slen data = slen recv ->
+  bytes_of (fst (h_ident_unmarshal recv data h)) recv = rev (bytes_of h data).
+Proof. exact ident_unmarshal_overlap. Qed.
+Print Assumptions C10_ident_decode_overlap.
+
 (* The exported EncryptFRMPayload / EncryptFOpts change nothing outside [off, off+len) of the slice
    they were given - whatever its capacity - on every outcome. *)
 Theorem C10_encrypt_frame_rule : forall key up afd devaddr fcnt (data : slice) (h : heap),
